@@ -838,11 +838,33 @@ func resetGenerations(c *mc.Ctx) {
 		v := newBV(i)
 		var m []ment
 		var hops []bop
+		// every per-entry result slice Verify hands out belongs to the caller: the caller scribbles over it straight away
+		// (which must not disturb the verifier) and it must still hold the scribbled values at the end of the history
+		// (the verifier must not keep writing into memory it has handed out - e.g. a reused scratch vector)
+		type keptSlice struct {
+			live, snap []bool
+			at         int
+		}
+		var kept []keptSlice
 		do := func(o bop) {
 			hops = append(hops, o)
 			ob := step(v, &m, o, c.Seed)
 			check(w, hops, m, ob)
+			if ob != nil && ob.kind == 6 && len(ob.each) > 0 {
+				for j := range ob.each {
+					ob.each[j] = !ob.each[j]
+				}
+				kept = append(kept, keptSlice{ob.each, append([]bool{}, ob.each...), len(hops)})
+			}
 		}
+		defer func() {
+			for _, k := range kept {
+				if fmt.Sprint(k.live) != fmt.Sprint(k.snap) {
+					w.Fail("BatchVerifier.Verify/returned-slice-changed", fmt.Sprintf("history %v: the per-entry results returned by the Verify at step %d (and since owned by the caller) were rewritten by later operations on the verifier: now %v, the caller left %v", hops, k.at, k.live, k.snap), map[string]interface{}{"history": fmt.Sprint(hops)})
+					return
+				}
+			}
+		}()
 		for _, o := range gen1[gi] {
 			do(o)
 		}
